@@ -14,6 +14,28 @@ PARTIAL = (' PARTIAL: decides the named structural clauses, each a necessary '
            'some input); it does not decide the run-time behaviour itself.')
 
 CLAIMED = {
+    'C07': dict(
+        text='Interprocedural effect/alias summaries (parameters modified, '
+             'results aliased, values stored, module/class writes) are '
+             'computed for all ~190 functions by abstract interpretation '
+             'and closed over the call graph (class-hierarchy analysis for '
+             'unknown receivers, least fixpoint). The summaries of the '
+             'three modelcheck functions modify none of their parameters: '
+             'on no path and through no callee is a caller-owned structure '
+             'or formula written, so every mutator receives a clone or a '
+             'graph built in the call. Formula fields are written only in '
+             'constructors; nothing reachable keeps or reads state outside '
+             'its arguments (module/class writes, mutable defaults, '
+             'globals, ambient reads). Covers every call history because it '
+             'is a statement about all paths of the code.',
+        ref='3-C07',
+        note='trusted: no reflection/monkey-patching; lark parsing is pure; '
+             'constructors of DiGraph/Kripke copy their arguments (decided '
+             'by C13 R-G-0 / C14 R-K-1); set members and dict keys are '
+             'hashable values; in-process iteration order is C06',
+        technique='interprocedural effect + alias analysis (abstract '
+                  'interpretation per function, CHA call graph, least '
+                  'fixpoint), clone-before-mutate typestate'),
     'C08': dict(
         text='Static decision, for every operator tree, of sort membership: '
              'signature table of all 44 alphabet classes rebuilt from source '
@@ -134,6 +156,24 @@ CLAIMED = {
         technique='abstract interpretation into graph-algebra summaries and '
                   'fair rewrite templates + bounded validity of the '
                   'extracted terms; alphabet typestate'),
+    'C19': dict(
+        partial=True,
+        text='Alias summaries show that the object returned by each '
+             'modelcheck aliases no argument and no module/class state; '
+             'every CTL handler and LTL.modelcheck return a set allocated '
+             'in the call and CTL*.modelcheck delegates to them; the LTL '
+             'result is states(K) minus a set and CTL handler results equal '
+             'the documented semantics (subsets of the states); the '
+             'RuntimeError preconditions of the graph primitives composed '
+             'by the CTL handlers are discharged on every small model; the '
+             'fresh atom / fair label generators (discovered) return a name '
+             'guarded by a membership loop over the labels of the same '
+             'structure. Not decided: implicit exceptions in general.',
+        ref='3-C19',
+        note='trusted: as C01/C07; set members hashable; heterogeneous '
+             'state types are the business of R-OPQ-1 (C06)',
+        technique='alias/provenance analysis + typestate of returned '
+                  'objects; guard dominance for fresh names'),
 }
 
 NOT_YET = {}
